@@ -296,7 +296,8 @@ def rust_overlay() -> Path | None:
     """Rebuild the Rust extensions from /repo's working tree into a cache dir and return a directory
     to put on PYTHONPATH in which `dulwich` is /repo/dulwich with the fresh .so files.  /repo is not
     written.  Returns None when cargo is unavailable or the build fails (recorded by the caller)."""
-    target = CACHE / "cargo-target"
+    key = "" if str(REPO) == "/repo" else "-" + hashlib.sha1(str(REPO).encode()).hexdigest()[:8]
+    target = CACHE / ("cargo-target" + key)
     target.mkdir(parents=True, exist_ok=True)
     env = clean_env({"CARGO_TARGET_DIR": str(target), "CARGO_NET_OFFLINE": "true"})
     env["HOME"] = os.environ.get("HOME", "/root")  # cargo registry lives in the real home
@@ -308,7 +309,7 @@ def rust_overlay() -> Path | None:
     if rc != 0:
         (CACHE / "cargo.log").write_text(out)
         return None
-    ov = CACHE / "overlay"
+    ov = CACHE / ("overlay" + key)
     pkg = ov / "dulwich"
     if pkg.exists():
         shutil.rmtree(pkg)
